@@ -80,7 +80,8 @@ def plan(seed, subbatch):
     fired["tz_switch_ops"] += switches
     return {"format": 1, "property": ID, "seed": seed, "subbatch": subbatch,
             "config": {"route": route, "tf": tf, "base_s": base_s, "fill": cfg.random() < 0.5,
-                       "enc": cfg.choice(("candles", "candles", "dicts_iso", "dicts"))},
+                       "enc": cfg.choice(("candles", "candles", "dicts_iso", "dicts")),
+                       "lifespan_s": (tf_s * cfg.randint(2, 12) if cfg.random() < 0.25 else None)},
             "ops": [{"op": "new", "preload": pre}] + ops, "fired": dict(fired)}
 
 
@@ -103,7 +104,7 @@ def _run_under(run, trace, zone, count_budget):
                     delivered.extend(rows)
                     span_n = (rows[-1][0] - rows[0][0]) // tf_seconds(tf) if rows else 0
                     subject, _m, view = run.call(len(rows) * 2 + span_n, build_route, route, tf, rows,
-                                                 bool(cfg.get("fill")))
+                                                 bool(cfg.get("fill")), cfg.get("lifespan_s"))
                     if route != "manager":
                         run.call(len(rows) * 2, subject.calculate)
                 elif subject is None:
